@@ -121,9 +121,9 @@ func writeEvidence(cfg checkCfg, b *Built, ag *agg, corpus map[string][3]int, si
 				"specs_compared": ag.refCompared,
 			},
 			"runs_stopped_at_simulator_capacity_limit": ag.harnessLimit,
-			"race_detector_reports":  ag.raceReports,
-			"harness_race_reports":   len(ag.harnessRaces),
-			"determinism_spot_check": map[string]any{"runs_reexecuted": detChecked, "event_log_mismatches": detMismatch},
+			"race_detector_reports":                    ag.raceReports,
+			"harness_race_reports":                     len(ag.harnessRaces),
+			"determinism_spot_check":                   map[string]any{"runs_reexecuted": detChecked, "event_log_mismatches": detMismatch},
 			"real_parallel_cross_check": map[string]any{
 				"note":       "NOT simulation: same workloads with real goroutines at GOMAXPROCS=16 on the uninstrumented -race build, to catch blind spots of the simulator itself",
 				"executions": ag.parRuns, "race_reports": ag.parRaces,
